@@ -17,5 +17,5 @@ def run(rep, tier):
     kernels.run_generators(rep, ["trace_out_matrix"])
     kernels.run_scope(rep, ["photon_weave/state/fock.py", "photon_weave/operation/fock_operation.py",
                             "photon_weave/operation/helpers/fock_dimension_esitmation.py"])
-    B.run_b(rep, morecells.resize_cells(tier, common.seed()), ["C10"])
-    B.run_b(rep, opcells.autodim_cells(tier, common.seed()), ["C10"])
+    B.run_b(rep, morecells.resize_cells(tier, common.seed()), ["C10"], tier=tier)
+    B.run_b(rep, opcells.autodim_cells(tier, common.seed()), ["C10"], tier=tier)
